@@ -1,8 +1,8 @@
 #!/bin/bash
-# verify_seed.sh <id> : confirm a seeded change in its scratch worktree /tmp/wt-<id> (patch in /tmp/seed-<id>/patch.diff, demo test in demo_test.go)
+# verify_seed.sh <id> (WTP / SEEDP override the directory prefixes, e.g. WTP=/tmp/wt2- SEEDP=/tmp/seed2-) : confirm a seeded change in its scratch worktree /tmp/wt-<id> (patch in /tmp/seed-<id>/patch.diff, demo test in demo_test.go)
 # 1) unchanged code + demo: demo passes   2) patched code: builds, existing suite passes, demo fails
 set -u
-ID=$1; WT=/tmp/wt-$ID; SEED=/tmp/seed-$ID
+ID=$1; WT=${WTP:-/tmp/wt-}$ID; SEED=${SEEDP:-/tmp/seed-}$ID
 export GOFLAGS=-mod=mod GOPROXY=off GOSUMDB=off GOTOOLCHAIN=local
 cd $WT || exit 2
 git checkout -q -- . ; git clean -fdq x app custom
@@ -19,7 +19,7 @@ echo "patched, build: exit $B (want 0)"
 go test -vet=off -count=1 -run "^($TESTS)\$" ./x/alliance/keeper/tests/ > /tmp/vs-$ID-c.log 2>&1; C=$?
 echo "patched, demo: exit $C (want non-zero)"
 rm -f $DEMO
-go test -vet=off -count=1 ./x/... ./app/... ./custom/... > /tmp/vs-$ID-d.log 2>&1; D=$?
+go test -vet=off -count=1 ./... > /tmp/vs-$ID-d.log 2>&1; D=$?
 echo "patched, existing suite: exit $D (want 0)"
 git checkout -q -- . ; git clean -fdq x app custom
 if [ $A -eq 0 ] && [ $B -eq 0 ] && [ $C -ne 0 ] && [ $D -eq 0 ]; then echo "SEED $ID CONFIRMED"; else echo "SEED $ID NOT CONFIRMED"; fi
